@@ -41,7 +41,8 @@ func (w *idWorld) queueAPI(ar *rand.Rand) {
 		w.rec.Eval(1)
 		return err == nil
 	}
-	switch ar.Intn(5) {
+	w.apiCalls++
+	switch w.apiCalls % 5 { // kinds are cycled so that every kind is exercised in every history
 	case 0: // legitimate: replace a live message of this queue in place (content of a sibling message)
 		id := msgs[ar.Intn(len(msgs))].GetId()
 		w.expectReplace = &entry{q, id}
